@@ -28,6 +28,7 @@ def P(pid):
     meta = {'explanation': '', 'assumptions': []}
     if pid == 'C01':
         R = [
+            ('RF-B pass-through arguments keep their role', rf_consts.rule_argument_roles, 40),
             ('RF-A option-normalisation sign/verify', lambda c: rf_consts.rule_option_normalisation(c, [T.SIG + 'sign', T.SIG + 'verify']), 4),
             ('RF-B interface constants sign/verify', lambda c: rf_consts.rule_interface_constants(c, [T.SIG + 'sign', T.SIG + 'verify']), 8),
             ('A5 ciphersuite constants', rf_consts.rule_ciphersuite_constants, 30),
@@ -40,6 +41,7 @@ def P(pid):
                                'from sign and verify (necessary for agreement), ciphersuite constant table. The pairing algebra is not decided.')
     elif pid == 'C02':
         R = [
+            ('RF-B pass-through arguments keep their role', rf_consts.rule_argument_roles, 40),
             ('RF-C hash binding (domain, map, e)', lambda c: rf_hash.rule_hash_binding(c, rf_hash.BBS_TABLE, BBS_SCOPE,
                 only_fns=hash_fns('calculate_domain', 'messages_to_scalar', 'map_message_to_scalar_as_hash', 'core_sign', 'hash_to_scalar')), 20),
             ('RF-D verify gates', lambda c: rf_gates.rule_accept_requirements(c, only(T.VERIFY_REQS, T.SIG + 'verify', T.BSIG + 'verify_blind_sign')), 2),
@@ -53,6 +55,7 @@ def P(pid):
                                'messages, header and the interface constants in its data-dependence slice. Collision resistance is assumed.')
     elif pid == 'C04':
         R = [
+            ('RF-B pass-through arguments keep their role', rf_consts.rule_argument_roles, 40),
             ('RF-C challenge ingredients', lambda c: rf_hash.rule_hash_binding(c, rf_hash.BBS_TABLE, BBS_SCOPE,
                 only_fns=hash_fns('proof_challenge_calculate', 'calculate_domain')), 15),
             ('RF-D proof_verify gates', lambda c: rf_gates.rule_accept_requirements(c, only(T.VERIFY_REQS, T.POK + 'proof_verify')), 4),
@@ -66,6 +69,7 @@ def P(pid):
                                'on every constructor path. Knowledge soundness of the sigma protocol itself is not decided.')
     elif pid == 'C06':
         R = [
+            ('RF-B pass-through arguments keep their role', rf_consts.rule_argument_roles, 40),
             ('RF-C blind challenge ingredients', lambda c: rf_hash.rule_hash_binding(c, rf_hash.BBS_TABLE, BBS_SCOPE,
                 only_fns=hash_fns('calculate_blind_challenge', 'finalize_blind_sign')), 10),
             ('RF-D blind gates', lambda c: rf_gates.rule_accept_requirements(c, only(T.VERIFY_REQS, T.BSIG + 'blind_sign',
@@ -89,6 +93,7 @@ def P(pid):
                                'every interface constant. Disjointness of hash-to-curve outputs is assumed, not decided.')
     elif pid == 'C03':
         R = [
+            ('RF-B pass-through arguments keep their role', rf_consts.rule_argument_roles, 40),
             ('RF-A option-normalisation proof_gen/proof_verify', lambda c: rf_consts.rule_option_normalisation(c, [T.POK + 'proof_gen', T.POK + 'proof_verify']), 8),
             ('RF-N proof length and layout', rf_codec.rule_proof_length, 4),
             ('RF-N reader/writer agreement', rf_codec.rule_reader_writer, 3),
@@ -108,6 +113,7 @@ def P(pid):
                                'under cfg(test)) equals the mocked one and the consumer guard. The Schnorr algebra is not decided.')
     elif pid == 'C05':
         R = [
+            ('RF-B pass-through arguments keep their role', rf_consts.rule_argument_roles, 40),
             ('RF-A option-normalisation blind entry points', lambda c: rf_consts.rule_option_normalisation(c, BLIND_ENTRIES), 14),
             ('RF-B blind interface constants', lambda c: rf_consts.rule_interface_constants(c, BLIND_ENTRIES), 20),
             ('RF-O production/mock twin agreement', rf_rand.rule_cfg_twins, 8),
@@ -194,6 +200,7 @@ def P(pid):
                                '2^(le-1) < e < 2^le and gcd(e, phi) = 1, e = random_prime(le). The modular algebra is not decided.')
     elif pid == 'C14':
         R = [
+            ('RF-B pass-through arguments keep their role (CL03)', lambda c: rf_consts.rule_argument_roles(c, scope=('cl03::',), min_sites=25), 25),
             ('RF-D blind_sign gated by verify_proof', CL.rule_blind_sign_gated, 3),
             ('RF-D verify_proof gates', lambda c: rf_gates.rule_accept_requirements(c, CL.C14_REQS), 4),
             ('RF-B commit / prove base agreement', CL.rule_commit_prove_base_agreement, 3),
@@ -208,6 +215,7 @@ def P(pid):
                                'every serialised leaf of the ZKPoK influences a comparison the verdict depends on (the commitment randomness leaves do not: known finding). Unblinding algebra is not decided.')
     elif pid == 'C15':
         R = [
+            ('RF-B pass-through arguments keep their role (CL03)', lambda c: rf_consts.rule_argument_roles(c, scope=('cl03::',), min_sites=25), 25),
             ('RF-C nisp5 challenge ingredients', CL.rule_nisp5_challenge, 20),
             ('RF-D proof_verify gates', lambda c: rf_gates.rule_accept_requirements(c, CL.C15_REQS), 3),
             ('RF-J carried commitments are equated', CL.rule_carried_commitment_equalities, 6),
